@@ -23,7 +23,6 @@ func setRules(w *world.World, name string, rules []string) {
 	c.CommitEmpty(w.Tick())
 }
 
-
 // core2 is chains A,B with mock packets both ways.
 func core2(name string, props map[string]bool, probe string) *PktModel {
 	return &PktModel{Name: name, Names: []string{A, B}, Props: props, ProbeMode: probe,
